@@ -245,6 +245,33 @@ def cyl_exit_points_horizontal():
     _cyl_checks((1, -1, 0))
 
 
+# the branch for directions without an x component orders its two intersections along y: both senses of y, and the purely
+# horizontal / vertical sub-cases
+@harness(clause="exit-points-cylinder")
+def cyl_exit_points_x0_towards_negative_y_rising():
+    _cyl_checks((0, -1, 1))
+
+
+@harness(clause="exit-points-cylinder")
+def cyl_exit_points_x0_towards_negative_y_level():
+    _cyl_checks((0, -1, 0))
+
+
+@harness(clause="exit-points-cylinder")
+def cyl_exit_points_x0_towards_negative_y_falling():
+    _cyl_checks((0, -1, -1))
+
+
+@harness(clause="exit-points-cylinder")
+def cyl_exit_points_x0_towards_positive_y_level():
+    _cyl_checks((0, 1, 0))
+
+
+@harness(clause="exit-points-cylinder")
+def cyl_exit_points_nnp():
+    _cyl_checks((-1, -1, 1))
+
+
 # ---------------------------------------------------------------------------
 # weights, shadow rejection, counting
 # ---------------------------------------------------------------------------
